@@ -144,6 +144,24 @@ def specialize(raw_bodies, norm):
                             t[k.replace("fn_", "callee_") if False else k] = op[k]
                     t["callee_crate"] = op.get("fn_crate", w["crate"])
                     t["resolved_by"] = "specialisation of %s for %s" % (norm(h["path"]), norm(w["path"]))
+            # `step: impl FnOnce(..)` called as `step(a, b)`: `<F as FnOnce<(A, B)>>::call_once(step, (a, b))`
+            elif t["k"] == "call" and str(t.get("callee", "")).split("::")[-1] in ("call_once", "call_mut", "call") and \
+                    "ops::function::Fn" in str(t.get("callee", "")) and len(t.get("args", [])) == 2:
+                src = _strip_reborrow(hh["blocks"], t["args"][0])
+                if src in fnbind:
+                    tup = t["args"][1]
+                    ops = None
+                    if tup.get("k") in ("copy", "move") and not tup["place"]["proj"]:
+                        ds = [st["rv"] for b2 in hh["blocks"] for st in b2["stmts"]
+                              if st["k"] == "assign" and st["place"]["local"] == tup["place"]["local"] and not st["place"]["proj"]]
+                        if len(ds) == 1 and ds[0]["k"] == "aggregate" and ds[0].get("agg") == "tuple":
+                            ops = ds[0]["ops"]
+                    if ops is not None:
+                        op = fnbind[src][2]
+                        t["callee"] = op["fn"]
+                        t["callee_crate"] = op.get("fn_crate", w["crate"])
+                        t["args"] = ops
+                        t["resolved_by"] = "specialisation of %s for %s" % (norm(h["path"]), norm(w["path"]))
         hh["blocks"][0]["stmts"] = prologue + hh["blocks"][0]["stmts"]
         # the wrapper keeps its identity
         for k in ("path", "span", "is_pub", "vis", "self_adt", "impl_trait", "parent", "kind", "crate"):
